@@ -29,7 +29,7 @@ func init() {
 			{Name: "sweep-events", Bubble: true, Run: c14Sweep, SweepN: c14SweepN, Exhaustive: true,
 				SweepNote: "all sequences of length <= 6 over the 7 event kinds {deliver-message, deliver-byte, cn-handler(next message), cn-task, terminate(kind by case), release-one, unyield-one} x 4 termination kinds, on a 3-message workload with yield sites enabled"},
 		},
-		MustProbes: []string{"cn-while-reader-blocked", "cn-from-handler", "cn-after-termination", "term:peer-eof", "term:rst", "term:undecodable", "term:local-close", "yield-parked", "copier-at-notify", "eof-with-data", "cn-from-error-reporter", "sctp-cn-from-handler", "sctp-cn-from-task", "sctp-term:read-error"},
+		MustProbes: []string{"cn-while-reader-blocked", "cn-from-handler", "cn-after-termination", "term:peer-eof", "term:rst", "term:undecodable", "term:local-close", "yield-parked", "copier-at-notify", "eof-with-data", "cn-from-error-reporter", "handler-answer", "write-temp", "sctp-cn-from-handler", "sctp-cn-from-task", "sctp-term:read-error"},
 	})
 }
 
@@ -40,6 +40,9 @@ type cnMsg struct {
 	park  bool
 	close bool // handler closes the connection
 	bad   bool
+	answer bool   // handler writes an answer ...
+	wfault string // ... whose transport write fails this way ("" = succeeds)
+	wafter int
 }
 
 type cnChan struct {
@@ -133,6 +136,15 @@ func (w *cnWorld) handler(c diam.Conn, m *diam.Message) {
 	if pl.cn {
 		ch := c.(diam.CloseNotifier).CloseNotify()
 		w.record(ch, "from-handler")
+	}
+	if pl.answer {
+		if pl.wfault != "" {
+			w.sc.ArmWriteFault(&WriteFault{Kind: pl.wfault, After: pl.wafter})
+		}
+		a := m.Answer(2001)
+		a.WriteTo(c) // a failed write does not end the connection
+		w.sc.ArmWriteFault(nil)
+		e.Probe("handler-answer")
 	}
 	if pl.park && !w.closing.Load() {
 		gate := make(chan struct{})
@@ -243,6 +255,11 @@ func c14Build(e *Env, sweep bool, w *cnWorld) *cnWorld {
 			m.cn = t.Chance(1, 4)
 			m.park = t.Chance(1, 3)
 			m.close = t.Chance(1, 25)
+			m.answer = t.Chance(1, 3)
+			if m.answer && t.Chance(1, 2) {
+				m.wfault = []string{"temp", "plain", "perm"}[t.Draw(3)]
+				m.wafter = t.Range(0, 30)
+			}
 		}
 		w.msgs = append(w.msgs, m)
 		w.stream = append(w.stream, m.bytes...)
